@@ -26,7 +26,7 @@ HERE = os.path.dirname(os.path.abspath(__file__))
 CHECK = os.path.join(os.path.dirname(HERE), "check.py")
 
 # corpora (checks whose compiled-code replay is re-run under the sanitizers)
-QUICK = ["C03", "C04", "C15", "C05"]
+QUICK = ["C04", "C15"]
 THOROUGH = ["C03", "C04", "C05", "C14", "C15", "C16", "C20", "C22", "C23", "C24", "C26", "C27", "C28", "C32"]
 
 _RE_SUMMARY = re.compile(r"SUMMARY: (\w+Sanitizer): ([\w-]+)(?: [^\n]* in (\w+))?")
